@@ -2768,6 +2768,25 @@ class ChannelManager:
             )
             return
 
+        if channel.connection_result is None or channel.connection_result.done():
+            # The caller has given up on this request: release the channel, and tell
+            # the peer if it has accepted it.
+            self.channels.get(connection.handle, {}).pop(request.source_cid, None)
+            if (
+                response.result
+                == L2CAP_LE_Credit_Based_Connection_Response.Result.CONNECTION_SUCCESSFUL
+            ):
+                self.send_control_frame(
+                    connection,
+                    L2CAP_LE_SIGNALING_CID,
+                    L2CAP_Disconnection_Request(
+                        identifier=self.next_identifier(connection),
+                        destination_cid=response.destination_cid,
+                        source_cid=request.source_cid,
+                    ),
+                )
+            return
+
         # Process the response
         channel.on_connection_response(response)
 
@@ -2980,11 +2999,15 @@ class ChannelManager:
         try:
             await channel.connect()
         except BaseException as error:
-            # (also when the caller gives up: a cancelled connect must not leave the
-            # channel behind)
             if isinstance(error, Exception):
                 logger.exception('connection failed')
-            connection_channels.pop(source_cid, None)
+                connection_channels.pop(source_cid, None)
+            elif channel.state != LeCreditBasedChannel.State.CONNECTING:
+                connection_channels.pop(source_cid, None)
+            # else: the caller gave up while the request is in flight. The peer may
+            # still accept it, so the CID stays reserved until the response arrives
+            # (see on_l2cap_le_credit_based_connection_response, which then releases
+            # the channel on both sides).
             raise
 
         return channel
